@@ -15,10 +15,10 @@ import (
 // here with math/big (Jacobian coordinates, general A), so that NIST P-192 and
 // the brainpool curves, named or with explicit parameters, are handled alike.
 type Curve struct {
-	Name string // e.g. "P-256", "brainpoolP256r1", "" for unknown explicit parameters
-	OID  string // named-curve OID, "" if none
+	Name               string // e.g. "P-256", "brainpoolP256r1", "" for unknown explicit parameters
+	OID                string // named-curve OID, "" if none
 	P, A, B, Gx, Gy, N *big.Int
-	H    int64
+	H                  int64
 }
 
 // FieldLen is the length in octets of a field element.
